@@ -87,14 +87,32 @@ func whiteboxTeardownRaces(c *vk.C, rng *rand.Rand, k int) {
 		stop.Store(true)
 		wg.Wait()
 
-		// the cache cancels from its own goroutines: give a context that is still live a generous moment before judging it
+		// the cache cancels from its own goroutines, which may be scheduled late on a loaded machine: no short deadline decides here. A
+		// context counts as missed only if it is still live a full minute after the round's last update AND a goroutine started at that
+		// point demonstrably got to run meanwhile (so the waiter, runnable for a minute, was not merely starved); after the first such
+		// context the remaining ones get no further patience.
 		for _, tctx := range got {
 			judged++
 
-			if tctx.Err() == nil {
-				select {
-				case <-tctx.Done():
-				case <-time.After(500 * time.Millisecond):
+			if tctx.Err() != nil {
+				continue
+			}
+
+			patience := time.Minute
+			if missed > 0 {
+				patience = 100 * time.Millisecond
+			}
+
+			canary := make(chan struct{})
+
+			go func() { close(canary) }()
+
+			select {
+			case <-tctx.Done():
+			case <-time.After(patience):
+				<-canary
+
+				if tctx.Err() == nil {
 					missed++
 				}
 			}
